@@ -7,7 +7,12 @@ fn covers(e: &Entry, id: u64) -> bool {
     e.run_length != 0 && e.tile_id <= id && (id - e.tile_id) < e.run_length as u64
 }
 
-fn any_entry() -> Entry { Entry { tile_id: kani::any(), offset: kani::any(), length: kani::any(), run_length: kani::any() } }
+/// any entry whose run does not leave the 64-bit id space (for hostile entries that do, C08 only requires 'no crash')
+fn any_entry() -> Entry {
+    let e = Entry { tile_id: kani::any(), offset: kani::any(), length: kani::any(), run_length: kani::any() };
+    kani::assume(e.tile_id.checked_add(e.run_length as u64).is_some());
+    e
+}
 
 fn check(es: &[Entry], id: u64) {
     let d = Directory::from(es.to_vec());
